@@ -99,23 +99,29 @@ namespace Pistache::Http::Experimental
 
         std::string dump() const;
 
+        // whether the request with this serial number is the one the connection
+        // is carrying at the moment
+        bool isPending(uint64_t serial);
+
     private:
         void processRequestQueue();
 
         struct RequestEntry
         {
             RequestEntry(Async::Resolver resolve, Async::Rejection reject,
-                         std::shared_ptr<TimerPool::Entry> timer, OnDone onDone)
+                         std::shared_ptr<TimerPool::Entry> timer, OnDone onDone, uint64_t serial)
                 : resolve(std::move(resolve))
                 , reject(std::move(reject))
                 , timer(std::move(timer))
                 , onDone(std::move(onDone))
+                , serial(serial)
             { }
 
             Async::Resolver resolve;
             Async::Rejection reject;
             std::shared_ptr<TimerPool::Entry> timer;
             OnDone onDone;
+            uint64_t serial;
         };
 
         // the pending request is installed by the thread that issues it and
@@ -127,6 +133,7 @@ namespace Pistache::Http::Experimental
         struct sockaddr_in saddr;
         std::mutex requestEntryLock;
         std::unique_ptr<RequestEntry> requestEntry;
+        uint64_t requestSerial = 0;
         std::atomic<uint32_t> state_;
         std::atomic<ConnectionState> connectionState_;
         std::shared_ptr<Transport> transport_;
